@@ -206,7 +206,11 @@ def build(repo=REPO, force=False, canary=None, verify_only=None, quiet=False, ex
             asm = gen.assemble(repo, sp, rows=rows_mod, canary=canary, opts=dict(prelude_files=pre))
         except gen.ToolError as e:
             return dict(tool_error=str(e), key=key, cache='miss')
-        gpath = os.path.join(GEN, 'pushr_vs%s.rs' % ('' if not canary and not verify_only else '_' + key[-12:]))
+        gpath = os.path.join(GEN, 'pushr_vs_%s.rs' % re.sub(r'\W', '_', key)[-40:])
+        olds = sorted([os.path.join(GEN, f) for f in os.listdir(GEN) if f.startswith('pushr_vs_')], key=os.path.getmtime)
+        for f in olds[:-8]:
+            try: os.remove(f)
+            except OSError: pass
         open(gpath, 'w').write(asm['text'])
         args = ['--multiple-errors', '30', '--num-threads', '16', '--rlimit', RLIMIT] + list(extra_args)
         if verify_only:
